@@ -20,7 +20,7 @@ func init() {
 		Explanation: "Static decision of the structural clauses of C02. R1: every host rule the DNS host table returns is re-validated by HostRule.Match(rule, hostname) with the very string that was hashed. " +
 			"R2: addRule keys every name of a host rule (complete unconditional loop, key FastHash(name), value the storage index). R3: the constructor sends every *HostRule to the host table and a *NetworkRule to the network engine exactly when " +
 			"IsHostLevelNetworkRule() holds. R4: the decision table of MatchRequest (extracted from SSA) equals the statement: empty hostname => nothing; NetworkRules = unfiltered MatchAll of the pooled request; a basic rule wins and the host table is not consulted; " +
-			"otherwise matched = host lookup flag; IPv4 rules go to HostRulesV4 on the true edge of Is4, all others to HostRulesV6. R5: the lookup flag is len(result) > 0. R6: the rule selection does not write through its argument (NetworkRules stays the unfiltered list). R9: IsHostLevelNetworkRule, evaluated on no option, every single option and every pair of options, is host-level exactly when enabledOptions &^ OptionHostLevelRulesOnly == 0 (the other conjuncts as with no option). A probe that files the host rules into the result it is handed (matchLookupTable(hostname, res) bool) is accepted as a second division of the work: the flag must be the loop-carried 'filed something', the family split, re-validation and bucket scan are judged in the probe, and the result handed over must be the fresh one the query returns. R10 imports the pattern-constant table (C03.R9): a ||domain^ rule covers every sub-domain label a DNS name can have. Roles pass to successor helpers when the vocabulary function is gone (fillHostRules for matchLookupTable, hostIndex.add for addRule). R13 imports C04.R6 ($denyallow address exemption), R14 imports C12.R7 (whole lines); the routing calls of R3 are looked for in helper activations too.",
+			"otherwise matched = host lookup flag; IPv4 rules go to HostRulesV4 on the true edge of Is4, all others to HostRulesV6. R5: the lookup flag is len(result) > 0. R6: the rule selection does not write through its argument (NetworkRules stays the unfiltered list). R9: IsHostLevelNetworkRule, evaluated on no option, every single option and every pair of options, is host-level exactly when enabledOptions &^ OptionHostLevelRulesOnly == 0 (the other conjuncts as with no option). A probe that files the host rules into the result it is handed (matchLookupTable(hostname, res) bool) is accepted as a second division of the work: the flag must be the loop-carried 'filed something', the family split, re-validation and bucket scan are judged in the probe, and the result handed over must be the fresh one the query returns. R10 imports the pattern-constant table (C03.R9): a ||domain^ rule covers every sub-domain label a DNS name can have. Roles pass to successor helpers when the vocabulary function is gone (fillHostRules for matchLookupTable, hostIndex.add for addRule). R13 imports C04.R6 ($denyallow address exemption), R14 imports C12.R7 (whole lines); the routing calls of R3 are looked for in helper activations too. R7 imports C11.R1-R5 since round 13: the engine keeps only the index of a rule, so the index the scanner reports must be the position the line starts at whatever the line ending (CRLF lists), and retrieval at it must return the scanned rule.",
 		Trusted: []string{"which modifiers make a rule browser-only is a product decision (the set of options in OptionHostLevelRulesOnly is not judged, only that the predicate is the subset test against it)", "C01, C06, C07, C18 decide the pieces this composes"},
 	})
 }
@@ -247,7 +247,8 @@ func runC02(c *Ctx) {
 	importRules(c, runC03, map[string]string{"C03.R9": "C02.R10"}, map[string]string{"C02.R10": "the constants a ||domain^ rule is compiled with mean what the syntax documents: every sub-domain label a DNS name can have is covered (shared with C03.R9)"})
 	importRules(c, runC18, map[string]string{"C18.R1": "C02.R8", "C18.R2": "C02.R8", "C18.R3": "C02.R8", "C18.R4": "C02.R8", "C18.R5": "C02.R8", "C18.R10": "C02.R8"},
 		map[string]string{"C02.R8": "the host rules the engine answers with are the lines of the lists read as hosts-file syntax: tokenizer, name list, address acceptance, name matching (shared with C18)"})
-	importRules(c, runC11, map[string]string{"C11.R5": "C02.R7"}, map[string]string{"C02.R7": "the constructor sees every rule of every list: storage scanner visits all lists, indexes are retrievable (shared with C11.R5)"})
+	importRules(c, runC11, map[string]string{"C11.R5": "C02.R7", "C11.R1": "C02.R7", "C11.R2": "C02.R7", "C11.R3": "C02.R7", "C11.R4": "C02.R7"},
+		map[string]string{"C02.R7": "the constructor sees every rule of every list and keeps only its index: the storage scanner visits all lists, the index reported with a rule is the position its line starts at (whatever the line ending), and retrieval at that index returns the rule that was scanned (shared with C11.R1-R5)"})
 
 	// ---------- R2 ----------
 	{
